@@ -38,6 +38,14 @@ type c14Conn struct {
 	PingAckDelayNs int64 `json:"ping_ack_delay_ns,omitempty"`
 	NoPingAck      bool  `json:"no_ping_ack,omitempty"`
 	DialNs         int64 `json:"dial_ns,omitempty"`
+	// CutAtAck: the peer acknowledges the PING that follows the first GOAWAY and
+	// closes its end of the connection CutDelayNs later, so that the server's
+	// reader meets the end of the connection while loopy is handling the final
+	// GOAWAY that the acknowledgement released (seeded change C12b). The
+	// per-connection drain oracles do not apply to such a connection; the
+	// process-level ones (no panic, GracefulStop returns, ledger) do.
+	CutAtAck   bool  `json:"cut_at_ack,omitempty"`
+	CutDelayNs int64 `json:"cut_delay_ns,omitempty"`
 }
 
 type c14Scenario struct {
@@ -98,6 +106,10 @@ func genC14(seed uint64, tier string) *c14Scenario {
 		}
 		if c > 0 && r.Chance(1, 3) {
 			cc.DialNs = int64(r.Intn(50)) * 1000000
+		}
+		if !cc.NoPingAck && r.Chance(1, 4) {
+			cc.CutAtAck = true
+			cc.CutDelayNs = int64(core.Pick(r, 0, 0, 0, 1, 1000, 1000000))
 		}
 		s.Conns = append(s.Conns, cc)
 	}
@@ -233,6 +245,36 @@ func runC14(e *core.Env, s *c14Scenario) {
 			go func() { defer hw.Done(); dial(c) }()
 		}
 	}
+	cut := make([]bool, len(s.Conns))
+	for c := range s.Conns {
+		cc := s.Conns[c]
+		if !cc.CutAtAck {
+			continue
+		}
+		hw.Add(1)
+		go func() {
+			defer hw.Done()
+			time.Sleep(time.Duration(cc.DialNs))
+			p := peers[c]
+			if p == nil {
+				return
+			}
+			p.WaitFor(-1, func() bool { return p.DrainAcked || p.Closed || p.dead })
+			if !p.DrainAcked || p.Closed || p.dead {
+				return
+			}
+			p.Flush()
+			if cc.CutDelayNs > 0 {
+				time.Sleep(time.Duration(cc.CutDelayNs))
+			}
+			if p.Closed || p.dead {
+				return
+			}
+			cut[c] = true
+			e.Probe("conn_cut_at_drain_ack")
+			p.Close()
+		}()
+	}
 	for i := range s.Streams {
 		rec := &c14Rec{spec: &s.Streams[i], tag: uint32(i + 1)}
 		recs[i] = rec
@@ -324,6 +366,10 @@ func runC14(e *core.Env, s *c14Scenario) {
 	}
 	for c, p := range peers {
 		if p == nil {
+			continue
+		}
+		if cut[c] {
+			// the peer left in the middle of the drain: nothing is owed to it
 			continue
 		}
 		gs := goaways[p.Idx]
